@@ -588,6 +588,12 @@ class Executor:
             a = BV(z3.BitVec(self.sym(("const", a.text)), b.term.size()), b.signed)
         elif isinstance(b, Const) and isinstance(a, BV):
             b = BV(z3.BitVec(self.sym(("const", b.text)), a.term.size()), a.signed)
+        # a transparent integer newtype of unknown value (e.g. rowan::TextSize from an abstracted call) in arithmetic:
+        # a fixed but unknown number of the other operand's width, named after the value's key
+        if isinstance(a, Opaque) and isinstance(b, BV):
+            a = BV(z3.BitVec(self.sym((a.k, "as_int")), b.term.size()), b.signed)
+        if isinstance(b, Opaque) and isinstance(a, BV):
+            b = BV(z3.BitVec(self.sym((b.k, "as_int")), a.term.size()), a.signed)
         if isinstance(a, BoolV) and isinstance(b, BoolV):
             if op == "Eq":
                 return BoolV(a.term == b.term)
